@@ -28,6 +28,7 @@ MANIFEST = {
             " Configuration file lists include repeated files (A B A).",
     "note": "Trusts the reference merge and the documented language post-rules (Python forces asserts; C++ std shorthand applies its group as a unit).",
 }
+MANIFEST["text"] += ' Overrides also reach the tables nested inside the built-in configuration (C++ std shorthand groups, comment styles).'
 
 
 # ------------------------------------------------------------------------------------------------ reference
